@@ -335,6 +335,59 @@ def _lstr(s):
     return ''.join(out)
 
 
+# the "standard prefixed units" of the human-readable round trip: attribute names of `quantities` per registry key
+# (pm is left out: quantities stores 1.0000000000000002e-12 for it)
+HR_STANDARD = {'length': ['m', 'dm', 'cm', 'mm', 'um', 'nm', 'km'], 'mass': ['kg', 'g', 'mg'], 'time': ['s', 'ms', 'us', 'ns', 'min', 'h', 'd'],
+               'current': ['A', 'mA', 'uA', 'nA'], 'temperature': ['K', 'mK', 'uK'], 'luminous_intensity': ['cd'],
+               'amount': ['mol', 'mmol', 'umol']}
+
+
+# named derived / non-SI units of `quantities` whose `.simplified` chempy relies on (get_physical_dimensionality, unit_of(simplified=True), registries)
+NAMED_DERIVED = ['L', 'mL', 'J', 'cal', 'N', 'Pa', 'kPa', 'bar', 'W', 'C', 'V', 'mV', 'Hz', 'mK']
+
+
+def _named_units(env):
+    out = []
+    for n in NAMED_DERIVED:
+        o = getattr(env.pq, n, None)
+        if o is None:
+            raise ExtractError('quantities has no unit %s' % n)
+        f, d, _ = env.leaf(o)
+        out.append((n, f, d))
+    return out
+
+
+def _hr_tables(env):
+    """(units, parse): units = [(key index, name, plain symbol, factor, dims)] read from the installed `quantities`;
+    parse = for each of those symbols what the third-party unit-string parser returns, `pq.Quantity(0, symbol).dimensionality`,
+    as [(symbol of the unit object, factor, dims, exponent)] — the `lookup` of the model's `fromHuman`"""
+    units, parse = [], []
+    for k, names in HR_STANDARD.items():
+        if k not in env.keys:
+            raise ExtractError('registry key %s vanished' % k)
+        for n in names:
+            o = getattr(env.pq, n, None)
+            if o is None:
+                raise ExtractError('quantities has no unit %s' % n)
+            f, d, _ = env.leaf(o)
+            sym = o.symbol
+            if not isinstance(sym, str) or not sym.isascii():
+                raise ExtractError('symbol of %s is not plain ASCII' % n)
+            units.append((env.keys.index(k), n, sym, f, d))
+            try:
+                items = list(env.pq.Quantity(0, sym).dimensionality.items())
+            except LookupError:
+                continue                      # unparseable: no entry (the round-trip theorem then fails to build, as it should)
+            ent = []
+            for po, pe in items:
+                pf, pd, _ = env.leaf(po)
+                if int(pe) != pe:
+                    raise ExtractError('non-integer exponent from the parser')
+                ent.append((po.symbol, pf, pd, int(pe)))
+            parse.append((sym, ent))
+    return units, parse
+
+
 def _ilist(v):
     return '[' + ', '.join(str(int(x)) for x in v) + ']'
 
@@ -377,5 +430,18 @@ def generate(repo):
     out.append('/-- the ArithmeticDict dimension constants of units.py (time … concentration) as exponent vectors -/')
     out.append('def dimConstants : List (String × List Int) := [\n%s]\n' % ',\n'.join(
         '  (%s, %s)' % (lean_str(k), _ilist(v)) for k, v in consts))
+    hr_units, hr_parse = _hr_tables(env)
+    out.append('/-- standard prefixed units of the installed `quantities` (third party): registry key index, attribute name, plain `symbol`,\n'
+               '    factor relative to SI (num, den), exponent vector -/')
+    out.append('def hrUnits : List (Nat × String × String × (Int × Nat) × List Int) := [\n%s]\n' % ',\n'.join(
+        '  (%d, %s, %s, (%d, %d), %s)' % (i, lean_str(n), lean_str(sym), f.numerator, f.denominator, _ilist(d)) for i, n, sym, f, d in hr_units))
+    out.append('/-- what the unit-string parser of `quantities` returns for each of those symbols (`pq.Quantity(0, symbol).dimensionality`):\n'
+               '    symbol ↦ [(symbol of the unit object, factor, exponent vector, exponent)] -/')
+    out.append('def hrParse : List (String × List (String × (Int × Nat) × List Int × Int)) := [\n%s]\n' % ',\n'.join(
+        '  (%s, [%s])' % (lean_str(sym), ', '.join('(%s, (%d, %d), %s, %d)' % (lean_str(ps), pf.numerator, pf.denominator, _ilist(pd), pe)
+                                                  for ps, pf, pd, pe in ent)) for sym, ent in hr_parse))
+    out.append('/-- named derived units of the installed `quantities` (third party) after `.simplified`: attribute name, factor (num, den), exponent vector -/')
+    out.append('def namedUnits : List (String × (Int × Nat) × List Int) := [\n%s]\n' % ',\n'.join(
+        '  (%s, (%d, %d), %s)' % (lean_str(n), f.numerator, f.denominator, _ilist(d)) for n, f, d in _named_units(env)))
     out.append('end ChemModel.Gen.Units\n')
     return {'Units.lean': '\n'.join(out)}
